@@ -87,10 +87,19 @@ def call_stmt(ex, e, st):
                 v = ex.ev(e.args[0], st)
                 st.env[name] = append(base, v)
                 return
-            pos = lit(toint(ex.ev(e.args[0], st)))
-            if pos != 0:
-                raise U("insert at a position other than 0")
+            posv = toint(ex.ev(e.args[0], st))
+            pos = lit(posv)
             v = ex.ev(e.args[1], st)
+            if pos != 0:
+                # list.insert(p, x) with 0 <= p <= len (an obligation; other positions clamp in Python and are not modelled)
+                ex.prove(st, f"insert-position-in-range:{ex.ordinal('ins')}", z3.And(posv >= 0, posv <= base.n), e.lineno)
+                val = v.at(0) if isinstance(v, Seq) else toint(v)
+                out = Seq(base.kind, base.elem, fresh(name, A), base.n + 1, iv(0), 0, base.dtype)
+                q = z3.Int("q#ins")
+                st.assume(z3.ForAll([q], z3.Implies(z3.And(0 <= q, q < out.n), out.arr[q] == z3.If(q < posv, base.at(q), z3.If(q == posv, val, base.at(q - 1)))),
+                                    patterns=[out.arr[q]]))
+                st.env[name] = out
+                return
             st.env[name] = prepend(base, v)
             return
     if isinstance(f, ast.Attribute) and isinstance(f.value, ast.Name) and f.attr == "append" and isinstance(st.env.get(f.value.id), Coll) \
@@ -271,6 +280,20 @@ def delete(ex, s, st):
         st.assume(z3.ForAll([i], z3.Implies(z3.And(0 <= i, i < order.n), order.arr[i] == z3.If(i < q, d.order.at(i), d.order.at(i + 1))), patterns=[order.arr[i]]))
         st.env[name] = DictV(z3.Store(d.has, k_, z3.BoolVal(False)), d.varr, d.vlen, order)
         return [Outcome("normal", st)]
+    if isinstance(tgt.value, ast.Name) and isinstance(st.env.get(tgt.value.id), Seq) and st.env[tgt.value.id].kind == "list":
+        name = tgt.value.id
+        base = st.env[name]
+        if name in st.aliased:
+            raise U(f"del on possibly aliased list {name}")
+        posv = toint(ex.ev(tgt.slice, st))
+        ex.may_raise(st, "IndexError", z3.Or(posv < -base.n, posv >= base.n), f"index:{ex.ordinal('idx')}", line)
+        ex.prove(st, f"del-position-nonnegative:{ex.ordinal('delpos')}", posv >= 0, line)          # negative positions are not modelled
+        ex.frame_store(st, name, line)
+        out = Seq(base.kind, base.elem, fresh(name, A), base.n - 1, iv(0), 0, base.dtype)
+        q = z3.Int("q#del")
+        st.assume(z3.ForAll([q], z3.Implies(z3.And(0 <= q, q < out.n), out.arr[q] == z3.If(q < posv, base.at(q), base.at(q + 1))), patterns=[out.arr[q]]))
+        st.env[name] = out
+        return [Outcome("normal", st)]
     raise U("del statement")
 
 
@@ -370,7 +393,10 @@ def b_list(ex, e, st):
     if isinstance(v, Seq):
         if v.kind == "str":
             return v.retag("list", "char")
-        return Seq("list", v.elem, v.arr, v.n, v.start, v.delta, None)
+        out = Seq("list", v.elem, v.arr, v.n, v.start, v.delta, None)
+        if getattr(v, "maxlen", None) is not None:
+            out.maxlen = v.maxlen
+        return out
     if isinstance(v, tuple) and v[0] == "mapped":
         return v[1]
     raise U(f"list() of {v!r}")
@@ -503,6 +529,38 @@ def b_zip(ex, e, st):
     return Tup([Tup([v.items[j] for v in vals]) for j in range(n)])
 
 
+def b_filter(ex, e, st):
+    """filter(lambda n: n != x, <list of at most 4 single characters>): the characters different from x, in order (exact closed form)."""
+    if len(e.args) != 2 or e.keywords or not isinstance(e.args[0], ast.Lambda):
+        raise U("filter() with these arguments")
+    lam = e.args[0]
+    body = lam.body
+    if not (len(lam.args.args) == 1 and isinstance(body, ast.Compare) and len(body.ops) == 1 and isinstance(body.ops[0], ast.NotEq)
+            and isinstance(body.left, ast.Name) and body.left.id == lam.args.args[0].arg):
+        raise U("filter() with a predicate other than `lambda n: n != x`")
+    x = ex.ev(body.comparators[0], st)
+    src = ex.ev(e.args[1], st)
+    m = getattr(src, "maxlen", None) if isinstance(src, Seq) else None
+    if lit(src.n) is not None:
+        m = lit(src.n)
+    if not (isinstance(src, Seq) and src.elem == "char" and m is not None and m <= 4 and isinstance(x, Seq) and lit(x.n) == 1):
+        raise U("filter() over this sequence")
+    c = x.at(0)
+    keep = [z3.And(j < src.n, src.at(j) != c) for j in range(m)]
+    before = [z3.Sum([z3.If(keep[i], 1, 0) for i in range(q)]) if q else iv(0) for q in range(m)]
+    vals = []
+    for p_ in range(m):
+        v = iv(0)
+        for q in range(m - 1, -1, -1):
+            v = z3.If(z3.And(keep[q], before[q] == p_), src.at(q), v)
+        vals.append(v)
+    out = const_list(vals)
+    out.elem = "char"
+    out.n = z3.Sum([z3.If(k_, 1, 0) for k_ in keep]) if m else iv(0)
+    out.maxlen = m
+    return out
+
+
 def b_sorted(ex, e, st):
     v = ex.ev(e.args[0], st)
     if isinstance(v, Coll) and v.form == "list" and not e.keywords and len(e.args) == 1:
@@ -515,7 +573,7 @@ def b_sorted(ex, e, st):
     raise U("sorted() of this value")
 
 
-BUILTINS = {"set": b_set, "zip": b_zip, "sorted": b_sorted, "len": b_len, "int": b_int, "str": b_str, "list": b_list, "map": b_map, "divmod": b_divmod, "type": b_type,
+BUILTINS = {"set": b_set, "zip": b_zip, "sorted": b_sorted, "filter": b_filter, "len": b_len, "int": b_int, "str": b_str, "list": b_list, "map": b_map, "divmod": b_divmod, "type": b_type,
             "print": b_print, "Monitor": b_monitor_ctor, "abs": b_abs, "bool": b_bool}
 
 
